@@ -79,6 +79,45 @@ def cfgs_thorough():
     return L
 
 
+BUFFER_FUNCS = ("iobuffer::load_buffer", "iobuffer::export_buffer", "iobuffer::get_entry", "iobuffer::get_size", "::runcry", "ChainEnc", "ChainDec")
+
+
+def tsan_aux(tier):
+    """Auxiliary free-running ThreadSanitizer pass (sampling; never counted as exhaustive). Returns (info, violations)."""
+    import re
+    import subprocess
+    exe = c.build_exe("tsan_pipe", ["harness/tsan_pipe.cpp"], defs=["-DWENCRY_VERIF_BUF_SZ=2", "-DWENCRY_VERIF_HBUF_SZ=2"], sanitize="thread", with_sched=False, libs=[],
+                      repo_sources=["kernel/multi_aes/multicry.cpp", "kernel/multi_aes/multi_buffergroup.cpp", "kernel/multi_aes/aes/aes.cpp", "kernel/multi_aes/aes/aesmode.cpp"])
+    env = dict(os.environ)
+    env["TSAN_OPTIONS"] = "halt_on_error=0:report_signal_unsafe=0:exitcode=0:history_size=4"
+    runs = 600 if tier == "thorough" else 150
+    try:
+        p = subprocess.run([exe, "runs=%d" % runs], stdout=subprocess.PIPE, stderr=subprocess.PIPE, text=True, env=env, timeout=600)
+    except subprocess.TimeoutExpired:
+        return {"tsan": "timed out (a free-running hang is C04's subject)"}, []
+    if "ThreadSanitizer" not in p.stderr and p.returncode != 0:
+        return {"tsan": "could not run (rc=%d): %s" % (p.returncode, p.stderr[-200:])}, []
+    reports = p.stderr.split("WARNING: ThreadSanitizer: data race")[1:]
+    ignored, viol = {}, []
+    for r in reports:
+        stacks = re.split(r"\n\s*\n", r)
+        tops = []
+        for st in stacks[:2]:
+            fr = [re.sub(r"\(.*", "", l.split(None, 1)[1]).strip() if len(l.split(None, 1)) > 1 else "" for l in st.splitlines() if re.match(r"\s+#\d+ ", l)]
+            tops.append([f for f in fr if f][:4])
+        flat = [f for t in tops for f in t]
+        if any(any(b in f for b in BUFFER_FUNCS) for f in flat):
+            k = "tsan-race:" + "~".join(t[0].split("(")[0] if t else "?" for t in tops)
+            viol.append({"key": k, "desc": "free-running ThreadSanitizer reports a data race on chunk-buffer state that the hooked exploration should also see: " + " / ".join(" < ".join(t[:3]) for t in tops),
+                         "replay": {"harness": "tsan_pipe", "args": "runs=%d" % runs, "note": "sampling: re-run the auxiliary pass"}, "prop": "C14", "confirmed": True})
+        else:
+            k = "~".join(t[0].split("(")[0] if t else "?" for t in tops)
+            ignored[k] = ignored.get(k, 0) + 1
+    m = re.search(r'"pipeline_runs":(\d+)', p.stdout)
+    return {"tsan_free_running_pipeline_runs": int(m.group(1)) if m else 0, "tsan_reports_on_buffer_state": len(viol),
+            "tsan_reports_ignored_not_chunk_buffer": ignored, "tsan_note": "auxiliary sampling pass; reports on bufferctrl::state (un-locked cmpstate vs set_update) are not accesses to a chunk buffer"}, viol
+
+
 def run(pid, tier, replay=None):
     t0 = time.time()
     seed = c.seed_from_env()
@@ -114,6 +153,13 @@ def run(pid, tier, replay=None):
         return c.finish(pid, tier, "model_checking", {"evaluations": 0, "distinct_nontrivial": 0, "states": 0, "transitions": 0, "traces_validated_against_impl": 0, "samples": []}, [], [], t0, seed, False, cannot_decide=str(e)[:300])
     agg = c.Agg()
     agg.add(res)
+    aux = {}
+    if pid == "C14":
+        try:
+            aux, tv = tsan_aux(tier)
+            agg.viol.extend(tv)
+        except c.CannotDecide as e:
+            aux = {"tsan": "not built: " + str(e)[:120]}
     # distinct observable states: union of the per-shard hash files, per configuration
     states = 0
     per_cfg = {}
@@ -168,6 +214,7 @@ def run(pid, tier, replay=None):
         "monitor": TITLE[pid],
         "caps_hit": bool(capped),
     }
+    coverage.update(aux)
     assumptions = [
         "synchronisation reaches the kernel only through the interposed pthread functions (std::thread/mutex/condition_variable do); sequential consistency between scheduling points",
         "scheduling points: every pthread operation, every WENCRY_VERIF_POINT and every block handed to a stream",
